@@ -107,9 +107,29 @@ func (Engine) Gen(seed uint64, idx int, tier string) interface{} {
 		case x < 4 && len(corpus) > 0:
 			f := corpus[r.Intn(len(corpus))]
 			sc.Sources = append(sc.Sources, Source{Name: f, File: f})
-		case x < 8:
+		case x < 6:
 			p := gen.GenScope(simrt.NewRand(r.Uint64()), 2+r.Intn(3))
 			sc.Sources = append(sc.Sources, Source{Name: fmt.Sprintf("<gen%d>", i), Src: p.Render()})
+		case x < 8:
+			// the programs of the other engines' generators
+			rr := simrt.NewRand(r.Uint64())
+			var src string
+			switch r.Intn(4) {
+			case 0:
+				src = gen.GenIter(rr, nil).Render()
+			case 1:
+				src = gen.GenCont(rr, nil).Render()
+			case 2:
+				ip := gen.GenImport(rr, false)
+				src = ip.RenderMain() + ip.RenderAfter()
+			default:
+				ip := gen.GenImport(rr, false)
+				for _, f := range ip.Files() {
+					src = f
+					break
+				}
+			}
+			sc.Sources = append(sc.Sources, Source{Name: fmt.Sprintf("<other%d>", i), Src: src})
 		case x == 8:
 			sc.Sources = append(sc.Sources, Source{Name: "<expr>", Src: exprs[r.Intn(len(exprs))]})
 		default:
